@@ -43,6 +43,10 @@ try:
         if cand and os.path.isdir(os.path.join(wt, cand)) and not cand.startswith("/"):
             if demodir is None or len(cand) > len(demodir):
                 demodir = cand
+    src_ = open(demo).read()
+    m2 = re.search(r"(?m)^package\s+(\w+)", src_)
+    if m2 and m2.group(1) in ("grpc", "grpc_test"):
+        demodir = "."   # root package, whatever else the comment mentions
     if demodir is None and re.search(r"\broot\b", first):
         demodir = "."
     if demodir is None:
